@@ -5,7 +5,7 @@ records the outcome in seeded/<id>/result.json.  usage: run_seeded_all.py [ids..
 import json, os, re, subprocess, sys
 from concurrent.futures import ThreadPoolExecutor
 HERE = os.path.dirname(os.path.dirname(os.path.abspath(__file__)))
-EXTRA = {"C04-m2": ["C06"], "C10-m3": ["C16"], "C05-m2": ["C06"]}
+EXTRA = {"C04-m2": ["C06"], "C10-m3": ["C16"], "C05-m2": ["C06"], "C14-r2m2": ["C08"], "C13-r2m3": ["C15"], "C07-r2m1": ["C06"], "C01-r2m3": ["C06"]}
 ids = sys.argv[1:] or sorted(d for d in os.listdir(os.path.join(HERE, "seeded")) if os.path.isdir(os.path.join(HERE, "seeded", d)))
 
 def one(sid):
